@@ -13,6 +13,11 @@ state and/or a second batch of another length, and - after all trees of the grou
 same batch after the state's parameters were perturbed IN PLACE (a per-object or content-keyed cache, or stale
 state, would be contradicted).  Some composites are additionally driven through Observable.statistics(...) and
 Observable.sample(...) with a recording wrapper around nn_state.sample (the random chains are recorded, not predicted).
+Operators must not change their operands: every intermediate object built on the way to a root is kept and applied
+again after its parent exists and must still evaluate to ITS OWN sub-expression; a 'dag' stream builds several
+composites that share sub-objects (s = a + 1; t = s + b; u = s * 2; ...) and evaluates all of them afterwards;
+the leaves are re-applied at the end of the group.  Non-numeric operands come in several values per kind, including
+everything float() would coerce ("2", "1.5", b"4", numpy strings, Decimal, Fraction, objects with __float__).
 Correspondence: accept/reject verdict, apply values and statistics vs the extracted Coq model
 (ObsExpr.build/apply/statistics_from_samples); the .left/.right layout is informational only (histogram)."""
 import math, operator, time
@@ -30,7 +35,11 @@ RULE = ("groups = (state type in positive/complex/density-matrix, nv 2..4, rando
         "the group's (state, batch), on a second state and/or a second batch of another length (1..nmax), and again after an "
         "in-place perturbation of the state's parameters; per group up to 2 (thorough 3) composites also go through "
         "Observable.statistics (num_chains 0/2/3/4, burn_in 0..2, steps 1..2, also initial_state=) and Observable.sample with "
-        "recorded chains. "
+        "recorded chains. Every operand object created while building a tree is re-applied after its parent was built (<= 8 per "
+        "tree) and compared with its own sub-expression; stream 'dag': 3..5 definitions sharing earlier OBJECTS, all evaluated "
+        "right after being built and again after all were built; 4 fixed programs always run. Non-numeric operands: 11 kinds, "
+        "1..9 values each (number-like str/bytes/bytearray/numpy strings, None, lists, complex, dict, tuple, Decimal, Fraction, "
+        "objects with __float__/__index__). "
         "non-trivial := accepted tree with >= 2 operators, >= 1 scalar and >= 1 leaf whose values vary over the batch, "
         "or a rejected tree whose defect sits below at least one other operator")
 ASSUMPTIONS = [
@@ -47,7 +56,11 @@ ASSUMPTIONS = [
 
 OPS = {"add": operator.add, "sub": operator.sub, "mul": operator.mul}
 SYM = {"add": "+", "sub": "-", "mul": "*"}
-JUNK_KINDS = ["str", "none", "list", "complex", "dict", "tuple"]
+JUNK_KINDS = ["str", "bytes", "npstr", "none", "list", "complex", "dict", "tuple", "decimal", "fraction", "floatable"]
+# decimal.Decimal / fractions.Fraction / objects with __float__ are number-LIKE objects that are not Python int/float
+# scalars.  The library rejects them and the coordinator asked that their rejection be demanded; set to False to
+# make their acceptance tolerated (they would then simply not be generated).
+STRICT_NUMBER_OBJECTS = True
 
 
 # ------------------------------------------------------------------------------------ trees
@@ -73,8 +86,55 @@ def mk_scalar(t, v):
     return float(v)
 
 
-def mk_junk(k):
-    return {"str": "sigma", "none": None, "list": [1.0, 2.0], "complex": 1 + 2j, "dict": {}, "tuple": (1.0,)}[k]
+class WithFloat:
+    """not a number type, but float(x) works"""
+    def __float__(self):
+        return 2.0
+
+
+class WithIndex:
+    def __index__(self):
+        return 3
+
+
+def junk_values():
+    """several values per non-numeric kind, including everything float() would happily coerce:
+    number-like strings and bytes, numpy strings, Decimal / Fraction, objects with __float__ / __index__"""
+    from decimal import Decimal
+    from fractions import Fraction
+    return {
+        "str": ["sigma", "2", "1.5", "-3", " 4 ", "1e3", "nan", "inf", ""],
+        "bytes": [b"4", b"1.5", b"x", bytearray(b"4")],
+        "npstr": [np.str_("2"), np.bytes_(b"3"), np.str_("x")],
+        "none": [None],
+        "list": [[1.0, 2.0], [2.0], []],
+        "complex": [1 + 2j, 2 + 0j],
+        "dict": [{}, {1: 2}],
+        "tuple": [(1.0,), (2,)],
+        "decimal": [Decimal("1.5"), Decimal(2)],
+        "fraction": [Fraction(1, 2), Fraction(3)],
+        "floatable": [WithFloat(), WithIndex()],
+    }
+
+
+def junk_kinds():
+    if STRICT_NUMBER_OBJECTS:
+        return JUNK_KINDS
+    return [k for k in JUNK_KINDS if k not in ("decimal", "fraction", "floatable")]
+
+
+def rand_junk(rng):
+    k = str(rng.choice(junk_kinds()))
+    return ["junk", k, int(rng.integers(0, len(junk_values()[k])))]
+
+
+def mk_junk(k, idx=0):
+    vs = junk_values()[k]
+    return vs[int(idx) % len(vs)]
+
+
+def junk_of(t):
+    return mk_junk(t[1], t[2] if len(t) > 2 else 0)
 
 
 def rand_scalar(rng):
@@ -154,10 +214,11 @@ def gen_defect(rng, d, nleaf):
         node = ["mul", gen_lin(rng, min(room, 2), nleaf), gen_lin(rng, min(room, 2), nleaf)]
         tagd = "obs*obs"
     else:
-        jk = str(rng.choice(JUNK_KINDS))
+        j = rand_junk(rng)
+        jk = j[1]
         op = str(rng.choice(["add", "sub", "mul"]))
         sib = gen_lin(rng, min(room, 2), nleaf)
-        node = [op, ["junk", jk], sib] if rng.random() < 0.5 else [op, sib, ["junk", jk]]
+        node = [op, j, sib] if rng.random() < 0.5 else [op, sib, j]
         tagd = "junk:" + jk + (":left" if node[1][0] == "junk" else ":right") + ":" + op
     return replace_at(base, p, node), tagd, len(p)
 
@@ -172,7 +233,7 @@ def gen_random(rng, d, nleaf):
     op = str(rng.choice(["add", "sub", "mul"], p=[0.35, 0.35, 0.3]))
     if u < 0.2:
         sib = with_leaf(rng, d - 1, nleaf)
-        j = ["junk", str(rng.choice(JUNK_KINDS))]
+        j = rand_junk(rng)
         return [op, j, sib] if rng.random() < 0.5 else [op, sib, j]
     return [op, gen_random(rng, d - 1, nleaf), gen_random(rng, d - 1, nleaf)]
 
@@ -239,7 +300,7 @@ def show(t, names):
     if k == "const":
         return {"int": "%d", "bool": "%s", "f64": "np.float64(%r)", "float": "%r", "fsub": "FSub(%r)", "isub": "ISub(%d)"}[t[1]] % (t[2],)
     if k == "junk":
-        return repr(mk_junk(t[1]))
+        return repr(junk_of(t))
     if k == "neg":
         return "-(" + show(t[1], names) + ")"
     return "(" + show(t[1], names) + " " + SYM[k] + " " + show(t[2], names) + ")"
@@ -258,20 +319,38 @@ def enc_tree(t):
     return [{"add": 4, "sub": 5, "mul": 6}[k], enc_tree(t[1]), enc_tree(t[2])]
 
 
-def real_eval(t, leaves):
-    """bottom-up evaluation with the real Python operators on the real objects (left operand first)"""
+def real_eval(t, leaves, env=None, keep=None):
+    """bottom-up evaluation with the real Python operators on the real objects (left operand first).
+    ["var", j] is the OBJECT built earlier for definition j (shared sub-object).  When `keep` is a list, every
+    intermediate result (sub-tree, object) of an operator node is appended to it, so that the sub-objects can be
+    evaluated again after their parents were built."""
     k = t[0]
     if k == "leaf":
         return leaves[t[1]]
+    if k == "var":
+        return env[t[1]]
     if k == "const":
         return mk_scalar(t[1], t[2])
     if k == "junk":
-        return mk_junk(t[1])
+        return junk_of(t)
     if k == "neg":
-        return operator.neg(real_eval(t[1], leaves))
-    a = real_eval(t[1], leaves)
-    b = real_eval(t[2], leaves)
-    return OPS[k](a, b)
+        r = operator.neg(real_eval(t[1], leaves, env, keep))
+    else:
+        a = real_eval(t[1], leaves, env, keep)
+        b = real_eval(t[2], leaves, env, keep)
+        r = OPS[k](a, b)
+    if keep is not None:
+        keep.append((t, r))
+    return r
+
+
+def expand(t, defs):
+    """substitute the definitions for ["var", j] nodes: the expression that the shared object must denote"""
+    if t[0] == "var":
+        return expand(defs[t[1]], defs)
+    if t[0] in ("leaf", "const", "junk"):
+        return t
+    return [t[0]] + [expand(c, defs) for c in t[1:]]
 
 
 def interp(t, vals):
@@ -429,7 +508,7 @@ def stats_ok(st, ref, scale):
     return bool(good), {"mean": mean, "variance": var, "std_error": se, "num_samples": n}
 
 
-def eval_on(ctx, obj, tree, case, state, samples, vals, label, with_model=True):
+def eval_on(ctx, obj, tree, case, state, samples, vals, label, with_model=True, with_stats=True):
     """apply + statistics_from_samples of the built composite on (state, samples) vs the interpreter over the
     leaves' own values on the same (state, samples); optionally vs the model.  Returns False when skipped."""
     import torch
@@ -464,6 +543,8 @@ def eval_on(ctx, obj, tree, case, state, samples, vals, label, with_model=True):
                           rtol=1e-9, atol=1e-9, scale=scale)
             else:
                 ctx.agree_exact("model apply returns a batch", True, False, case)
+    if not with_stats:
+        return True
     if n < 2:
         ctx.count("batch_of_one:apply_only")     # the sample variance of one value is undefined
         return True
@@ -518,8 +599,9 @@ def run_tree(ctx, g, gkey, tkey, stream, maxd, tree=None, extra=None, alt_index=
 
     # ---- implementation: real operators on real objects.  "rejected" = any exception while building
     # (the property does not name an exception class; the class only goes into the histogram)
+    subobjs = []
     try:
-        obj = real_eval(tree, g["leaves"])
+        obj = real_eval(tree, g["leaves"], keep=subobjs)
         if isinstance(obj, ObservableBase):
             status = "obs"
         elif isinstance(obj, (int, float)):
@@ -574,8 +656,142 @@ def run_tree(ctx, g, gkey, tkey, stream, maxd, tree=None, extra=None, alt_index=
     # ... and the first pair once more: the answer must not have been replaced by the second call's
     if int(tkey[-1]) % 4 == 0:
         eval_on(ctx, obj, tree, case, g["state"], g["samples"], g["vals"], "state1,batch1 (again)", with_model=False)
+    subobject_pass(ctx, g, subobjs[:-1], case, rng)
     ctx.traces += 1
     return (tree, obj, case)
+
+
+def subobject_pass(ctx, g, subobjs, case, rng, defs=None, limit=8):
+    """every operand object that was built on the way (sub-tree, object) must STILL evaluate to its own
+    sub-expression after its parents were built from it (an operator must not mutate its operands)"""
+    from qucumber.observables.observable import ObservableBase
+    cands = [(t, o) for t, o in subobjs if isinstance(o, ObservableBase)]
+    if len(cands) > limit:
+        # the operands nearest to the root (built last) always, a random subset of the others
+        last, rest = cands[-3:], cands[:-3]
+        pick = sorted(int(i) for i in rng.choice(len(rest), size=limit - 3, replace=False))
+        cands = [rest[i] for i in pick] + last
+    for t, o in cands:
+        te = expand(t, defs) if defs is not None else t
+        if must_reject(te):
+            continue
+        ctx.count("subobject_reevaluated")
+        eval_on(ctx, o, te, dict(case, mode=case.get("mode", "subobject"), sub_expr=show(te, g["names"])),
+                g["state"], g["samples"], g["vals"], "operand object, after its parent was built", with_model=False,
+                with_stats=False)
+
+
+# ------------------------------------------------------------------------------------ shared sub-objects (DAGs)
+FIXED_DAGS = [   # leaf 0 = a, leaf 1 = b;  ["var", j] = the object of definition j
+    # s = a + 1; t = s + b; u = s * 2; w = s - b     (s, t, u, w all evaluated afterwards)
+    [["add", ["leaf", 0], ["const", "int", 1]], ["add", ["var", 0], ["leaf", 1]], ["mul", ["var", 0], ["const", "int", 2]],
+     ["sub", ["var", 0], ["leaf", 1]]],
+    # p = 2 * a; q = -p; r = p * 3; w = 3 * p; x = p - 1.5
+    [["mul", ["const", "int", 2], ["leaf", 0]], ["neg", ["var", 0]], ["mul", ["var", 0], ["const", "int", 3]],
+     ["mul", ["const", "float", 3.0], ["var", 0]], ["sub", ["var", 0], ["const", "float", 1.5]]],
+    # d = a - b; e = d + d; f = 2 - d; h = e - f
+    [["sub", ["leaf", 0], ["leaf", 1]], ["add", ["var", 0], ["var", 0]], ["sub", ["const", "int", 2], ["var", 0]],
+     ["sub", ["var", 1], ["var", 2]]],
+    # m = -a; n = m * 0.5; o = -(m); k = n + m
+    [["neg", ["leaf", 0]], ["mul", ["var", 0], ["const", "float", 0.5]], ["neg", ["var", 0]], ["add", ["var", 1], ["var", 0]]],
+]
+
+
+def gen_dag(rng, maxd, nleaf):
+    """3..5 definitions; every later one uses at least one earlier OBJECT (linear, hence all accepted)"""
+    k = int(rng.integers(3, 6))
+    defs = [gen_lin(rng, int(rng.integers(1, 3)), nleaf)]
+    if defs[0][0] == "leaf":
+        defs[0] = ["add", defs[0], rand_scalar(rng)]
+
+    def to_vars(t, nv):
+        if t[0] == "leaf" and t[1] >= nleaf:
+            return ["var", t[1] - nleaf]
+        if t[0] in ("leaf", "const", "junk"):
+            return t
+        return [t[0]] + [to_vars(c, nv) for c in t[1:]]
+
+    def has_var(t):
+        return t[0] == "var" or (t[0] not in ("leaf", "const", "junk") and any(has_var(c) for c in t[1:]))
+    for j in range(1, k):
+        t = to_vars(gen_lin(rng, int(rng.integers(1, max(2, min(maxd, 3)) + 1)), nleaf + 2 * j), j)
+        # leaf indices nleaf .. nleaf+2j-1 map to the j earlier definitions (each twice as likely as a leaf)
+        def fold(t):
+            if t[0] == "var":
+                return ["var", t[1] % j]
+            if t[0] in ("leaf", "const", "junk"):
+                return t
+            return [t[0]] + [fold(c) for c in t[1:]]
+        t = fold(t)
+        if not has_var(t):
+            v = ["var", int(rng.integers(0, j))]
+            op = str(rng.choice(["add", "sub", "mul", "neg"]))
+            if op == "neg":
+                t = ["sub", ["neg", v], t]
+            elif op == "mul":
+                t = ["add", ["mul", v, rand_scalar(rng)] if rng.random() < 0.5 else ["mul", rand_scalar(rng), v], t]
+            else:
+                t = [op, v, t] if rng.random() < 0.5 else [op, t, v]
+        defs.append(t)
+    return defs
+
+
+def show_dag(defs, names):
+    nm = list(names)
+
+    def sh(t):
+        if t[0] == "var":
+            return "v%d" % t[1]
+        if t[0] in ("leaf", "const", "junk"):
+            return show(t, nm)
+        if t[0] == "neg":
+            return "-(" + sh(t[1]) + ")"
+        return "(" + sh(t[1]) + " " + SYM[t[0]] + " " + sh(t[2]) + ")"
+    return "; ".join("v%d = %s" % (j, sh(t)) for j, t in enumerate(defs))
+
+
+def run_dag(ctx, g, gkey, tkey, maxd, defs=None, extra=None):
+    """several composites that SHARE sub-objects, built in order with the real operators; afterwards every definition's
+    object and every operand object is evaluated against its own (expanded) expression.  Returns the kept composites."""
+    from qucumber.observables.observable import ObservableBase
+    rng = np.random.Generator(np.random.PCG64(tkey))
+    if defs is None:
+        defs = gen_dag(rng, maxd, len(g["leaves"]))
+    expr = show_dag(defs, g["names"])
+    case = {"stream": "dag", "mode": "dag", "gkey": list(gkey), "tkey": list(tkey), "maxd": maxd, "state": g["kind"],
+            "nv": g["nv"], "n": g["n"], "leaves": g["names"], "expr": expr, "dag": defs, **(extra or {})}
+    ctx.case({"expr": expr, "state": g["kind"], "nv": g["nv"], "n": g["n"]}, nontrivial=True)
+    ctx.count("stream:dag")
+    env, subobjs = [], []
+    for j, t in enumerate(defs):
+        te = expand(t, defs)
+        try:
+            o = real_eval(t, g["leaves"], env=env, keep=subobjs)
+            status = "obs" if isinstance(o, ObservableBase) else "other:" + type(o).__name__
+        except Exception as e:
+            o, status = None, "rejected"
+            ctx.count("rejected_with:" + type(e).__name__)
+        ctx.require("rejected exactly the non-linear / non-numeric constructions", (status == "rejected") == must_reject(te),
+                    dict(case, definition=j), {"impl": status, "predicate_rejects": must_reject(te)})
+        if status != "obs":
+            return []
+        env.append(o)
+        # evaluated once right away (apply only) and again below, after later definitions were built from it
+        eval_on(ctx, o, te, dict(case, definition=j, def_expr=show(te, g["names"])), g["state"], g["samples"], g["vals"],
+                "definition %d, right after it was built" % j, with_model=False, with_stats=False)
+    kept = []
+    # all definitions were built: now every shared object must denote its own expression
+    for j, t in enumerate(defs):
+        te = expand(t, defs)
+        cj = dict(case, definition=j, def_expr=show(te, g["names"]))
+        if not eval_on(ctx, env[j], te, cj, g["state"], g["samples"], g["vals"], "definition %d, after all were built" % j):
+            continue
+        a = g["alts"][(int(tkey[-1]) + j) % len(g["alts"])]
+        eval_on(ctx, env[j], te, cj, a["state"], a["samples"], a["vals"], a["label"], with_model=False)
+        kept.append((te, env[j], cj))
+    subobject_pass(ctx, g, subobjs, case, rng, defs=defs, limit=10)
+    ctx.traces += 1
+    return kept
 
 
 # ------------------------------------------------------------------------------------ in-place perturbation pass
@@ -722,43 +938,47 @@ def direct_ctor_cases(ctx, g, gkey):
     from qucumber.observables.observable import SumObservable, ProdObservable
     m = ctx.get_model()
     a, b = g["leaves"][0], g["leaves"][1]
-    operands = [("leaf0", a, [0, 0]), ("leaf1", b, [0, 1]), ("int", 3, [3, 3.0]), ("float", -2.5, [3, -2.5]),
-                ("bool", True, [3, 1.0]), ("f64", np.float64(0.5), [3, 0.5]), ("fsub", FSub(1.5), [3, 1.5])] + \
-               [("junk:" + k, mk_junk(k), [2]) for k in JUNK_KINDS]
+    base = [("leaf0", a, [0, 0]), ("leaf1", b, [0, 1]), ("int", 3, [3, 3.0]), ("float", -2.5, [3, -2.5]),
+            ("bool", True, [3, 1.0]), ("f64", np.float64(0.5), [3, 0.5]), ("fsub", FSub(1.5), [3, 1.5])]
+    jv = junk_values()
+    junks = [("junk:%s:%d" % (k, i), v, [2]) for k in junk_kinds() for i, v in enumerate(jv[k])]
+    pairs = [(x, y) for x in base for y in base]
+    for j in junks:                                   # every non-numeric value next to an observable and next to a scalar
+        pairs += [(j, base[0]), (base[0], j), (j, base[2]), (base[3], j)]
+    pairs += [(junks[0], junks[1]), (junks[1], junks[0])]
     for cname, ctor, code in (("SumObservable", SumObservable, 0), ("ProdObservable", ProdObservable, 1)):
-        for n1, v1, e1 in operands:
-            for n2, v2, e2 in operands:
-                has_obs = n1.startswith("leaf") or n2.startswith("leaf")
-                junk = n1.startswith("junk") or n2.startswith("junk")
-                if not has_obs and not junk:
-                    ctx.count("ctor(scalar,scalar): not constrained by the property, skipped")
-                    continue
-                case = {"stream": "ctor", "gkey": list(gkey), "ctor": cname, "o1": n1, "o2": n2}
-                both_obs = n1.startswith("leaf") and n2.startswith("leaf")
-                want = junk or (cname == "ProdObservable" and both_obs)
-                ctx.case({"ctor": cname, "o1": n1, "o2": n2}, nontrivial=False)
-                ctx.count("stream:ctor")
-                try:
-                    obj = ctor(v1, v2)
-                    status = "obs"
-                except Exception as e:
-                    obj, status = None, "rejected"
-                    ctx.count("rejected_with:" + type(e).__name__)
-                ctx.require("constructor rejects exactly non-numeric operands and observable*observable",
-                            (status == "rejected") == want, case, {"impl": status, "must_reject": want})
-                r = m.call("c16_ctor", code, e1, e2)
-                mstatus = "obs" if int(r[0]) == 0 else "rejected"
-                ctx.agree_exact("constructor verdict", status, mstatus, case)
-                if status == "obs" and mstatus == "obs":
-                    ctx.count("ctor layout==model" if shape_eq(ser_obj(obj, g["ids"]), canon_model_shape(r[1]))
-                              else "ctor layout!=model (informational)")
+        for (n1, v1, e1), (n2, v2, e2) in pairs:
+            has_obs = n1.startswith("leaf") or n2.startswith("leaf")
+            junk = n1.startswith("junk") or n2.startswith("junk")
+            if not has_obs and not junk:
+                ctx.count("ctor(scalar,scalar): not constrained by the property, skipped")
+                continue
+            case = {"stream": "ctor", "gkey": list(gkey), "ctor": cname, "o1": n1, "o2": n2}
+            both_obs = n1.startswith("leaf") and n2.startswith("leaf")
+            want = junk or (cname == "ProdObservable" and both_obs)
+            ctx.case({"ctor": cname, "o1": n1, "o2": n2}, nontrivial=False)
+            ctx.count("stream:ctor")
+            try:
+                obj = ctor(v1, v2)
+                status = "obs"
+            except Exception as e:
+                obj, status = None, "rejected"
+                ctx.count("rejected_with:" + type(e).__name__)
+            ctx.require("constructor rejects exactly non-numeric operands and observable*observable",
+                        (status == "rejected") == want, case, {"impl": status, "must_reject": want})
+            r = m.call("c16_ctor", code, e1, e2)
+            mstatus = "obs" if int(r[0]) == 0 else "rejected"
+            ctx.agree_exact("constructor verdict", status, mstatus, case)
+            if status == "obs" and mstatus == "obs":
+                ctx.count("ctor layout==model" if shape_eq(ser_obj(obj, g["ids"]), canon_model_shape(r[1]))
+                          else "ctor layout!=model (informational)")
 
 
 # ------------------------------------------------------------------------------------ driver
 def plan(ctx):
     if ctx.thorough:
-        return {"groups": 700, "lin": 14, "defect": 7, "rand": 7, "maxd": 6, "sampling": 3}
-    return {"groups": 100, "lin": 8, "defect": 4, "rand": 4, "maxd": 4, "sampling": 2}
+        return {"groups": 500, "lin": 12, "defect": 7, "rand": 6, "dag": 3, "maxd": 6, "sampling": 3}
+    return {"groups": 80, "lin": 7, "defect": 4, "rand": 4, "dag": 2, "maxd": 4, "sampling": 2}
 
 
 FIXED = [  # the forms named in the property / design, always run (leaf 0 = a, leaf 1 = b)
@@ -773,10 +993,23 @@ FIXED = [  # the forms named in the property / design, always run (leaf 0 = a, l
     ["add", ["sub", ["neg", ["leaf", 1]], ["mul", ["const", "int", 3], ["leaf", 0]]], ["const", "int", 1]],
     ["mul", ["leaf", 0], ["leaf", 1]], ["mul", ["leaf", 0], ["leaf", 0]],
     ["mul", ["add", ["leaf", 0], ["const", "int", 1]], ["sub", ["const", "int", 2], ["leaf", 1]]],
-    ["add", ["leaf", 0], ["junk", "str"]], ["add", ["junk", "none"], ["leaf", 0]], ["sub", ["leaf", 0], ["junk", "list"]],
-    ["sub", ["junk", "complex"], ["leaf", 0]], ["mul", ["leaf", 0], ["junk", "dict"]], ["mul", ["junk", "tuple"], ["leaf", 0]],
+    ["add", ["leaf", 0], ["junk", "str", 0]], ["add", ["junk", "none", 0], ["leaf", 0]], ["sub", ["leaf", 0], ["junk", "list", 0]],
+    ["sub", ["junk", "complex", 0], ["leaf", 0]], ["mul", ["leaf", 0], ["junk", "dict", 0]], ["mul", ["junk", "tuple", 0], ["leaf", 0]],
     ["mul", ["mul", ["const", "int", 2], ["const", "int", 3]], ["leaf", 0]],
     ["sub", ["const", "int", 2], ["const", "float", 0.5]],
+    # operands that float() would coerce: must be rejected like any other non-numeric operand
+    ["mul", ["junk", "str", 1], ["leaf", 0]], ["add", ["leaf", 0], ["junk", "str", 2]], ["mul", ["leaf", 0], ["junk", "bytes", 0]],
+    ["sub", ["leaf", 0], ["junk", "str", 3]], ["sub", ["junk", "str", 5], ["leaf", 1]], ["add", ["junk", "bytes", 1], ["leaf", 0]],
+    ["mul", ["leaf", 1], ["junk", "npstr", 0]], ["add", ["leaf", 1], ["junk", "npstr", 1]], ["mul", ["junk", "bytes", 3], ["leaf", 0]],
+    ["add", ["leaf", 0], ["junk", "decimal", 0]], ["mul", ["junk", "fraction", 0], ["leaf", 0]], ["sub", ["leaf", 0], ["junk", "floatable", 0]],
+    ["mul", ["leaf", 0], ["junk", "floatable", 1]], ["add", ["junk", "str", 6], ["leaf", 0]], ["mul", ["leaf", 0], ["junk", "complex", 1]],
+    # chains of the same operator class (operand objects are re-evaluated after the parent was built)
+    ["add", ["add", ["add", ["leaf", 0], ["const", "int", 1]], ["leaf", 1]], ["const", "float", 0.5]],
+    ["sub", ["sub", ["leaf", 0], ["leaf", 1]], ["sub", ["leaf", 1], ["const", "int", 2]]],
+    ["mul", ["mul", ["const", "int", 2], ["leaf", 0]], ["const", "int", 3]],
+    ["mul", ["const", "float", -0.5], ["mul", ["leaf", 1], ["const", "int", 4]]],
+    ["neg", ["mul", ["const", "int", 2], ["leaf", 0]]], ["neg", ["neg", ["neg", ["leaf", 0]]]],
+    ["sub", ["neg", ["add", ["leaf", 0], ["leaf", 1]]], ["mul", ["neg", ["leaf", 0]], ["const", "int", 2]]],
 ]
 
 
@@ -801,6 +1034,9 @@ def run_group(ctx, gkey, P, fixed=None, ctor=False):
             if k:
                 kept.append(k)
             t += 1
+        for defs in FIXED_DAGS:
+            kept += run_dag(ctx, g, gkey, gkey + (t,), P["maxd"], defs=defs, extra={"group": grp})
+            t += 1
     else:
         for stream, cnt in (("linear", P["lin"]), ("defect", P["defect"]), ("random", P["rand"])):
             for _ in range(cnt):
@@ -808,6 +1044,14 @@ def run_group(ctx, gkey, P, fixed=None, ctor=False):
                 if k:
                     kept.append(k)
                 t += 1
+        for _ in range(P.get("dag", 2)):
+            kept += run_dag(ctx, g, gkey, gkey + (t,), P["maxd"], extra={"group": grp})
+            t += 1
+    # the leaf observables themselves were used as operands many times: they must not have been changed by that
+    after = leaf_values(g["leaves"], g["state"], g["samples"])
+    ctx.require("a leaf observable still evaluates as before after being used as an operand",
+                all(np.array_equal(x, y) for x, y in zip(after, g["vals"])),
+                {"stream": "leaf", "mode": "leaf_after", "gkey": list(gkey), "group": grp, "leaves": g["names"]})
     perturbed_pass(ctx, g, kept)
     # statistics(...) / sample(...): prefer composites with several operators
     cand = sorted(kept, key=lambda k: -min(n_ops(k[0]), 3))[:P.get("sampling", 2)]
@@ -828,7 +1072,7 @@ def search(ctx, broken, budget):
     """wider oracle sweep when the proof or the correspondence broke"""
     t0 = time.time()
     n0 = len(ctx.failures)
-    P = {"groups": 0, "lin": 12, "defect": 6, "rand": 6, "maxd": 6 if ctx.thorough else 4, "sampling": 2}
+    P = {"groups": 0, "lin": 12, "defect": 6, "rand": 6, "dag": 3, "maxd": 6 if ctx.thorough else 4, "sampling": 2}
     gi = 0
     while time.time() - t0 < budget:
         run_group(ctx, (ctx.seed, 16, 1, gi), P, ctor=(gi == 0))
@@ -842,7 +1086,7 @@ def shrink(ctx, rec):
     """replace the failing tree by its smallest failing sub-tree / simplification (same group).  Only for failures
     of the plain per-tree evaluation; perturbed / sampling failures are replayed through their whole group."""
     case = rec.get("case", {})
-    if "tree" not in case or "gkey" not in case or case.get("mode") in ("perturbed", "sampling"):
+    if "tree" not in case or "gkey" not in case or case.get("mode") in ("perturbed", "sampling", "dag", "subobject"):
         return rec
     gkey = tuple(case["gkey"])
     g = make_group(ctx, gkey)
@@ -881,7 +1125,15 @@ def shrink(ctx, rec):
 def replay(ctx, rec):
     case = rec.get("failing", {}).get("case", {})
     grp = case.get("group")
-    if case.get("mode") in ("perturbed", "sampling") and grp:
+    if case.get("mode") == "dag" and "dag" in case:
+        gkey = tuple(case["gkey"])
+        g = make_group(ctx, gkey)
+        print("replay of shared-object program", case.get("expr"), "on", case.get("state"), "nv", case.get("nv"), "n", case.get("n"))
+        kept = run_dag(ctx, g, gkey, tuple(case.get("tkey", gkey)), case.get("maxd", 4), defs=case["dag"])
+        if case.get("perturb_seed") is not None:
+            perturbed_pass(ctx, g, kept)
+        return
+    if case.get("mode") in ("perturbed", "sampling", "leaf_after") and grp:
         print("replay of group", grp["gkey"], "(", case.get("mode"), "failure of", case.get("expr"), ")")
         run_group(ctx, tuple(grp["gkey"]), grp["P"], fixed=FIXED if grp.get("fixed") else None, ctor=False)
         return
